@@ -22,6 +22,39 @@ ASSUMPTIONS = [
     "the real-process grid can confirm a loss but never its absence (timing dependent); the deciding step is the controlled schedule search",
 ]
 FLOORS = {"exit-with-queued-results": 0.15, "worker-restarted": 0.15}
+ENUM_EXHAUSTIVE = True
+EXHAUSTIVE_NOTE = ("systematic part (delay-bounded schedules): for each of 16 small configurations (n in {3,5} ids, pool 2, max_tasks in {1,2}, no "
+                   "failing id / id 1 failing, prompt / slow consumer; irun, tolerant) the fair round-robin schedule and EVERY schedule that "
+                   "deviates from it at <= d of the first T scheduling steps (by one or two places) are executed: d=1, T=60 quick (121 schedules per "
+                   "configuration), d=2, T=40 thorough (3 201). Exhaustive over that family only; the generated part draws arbitrary schedule "
+                   "prefixes, more ids, workers, failures, callbacks.")
+DELAY_BOUND = {"quick": (1, 60), "thorough": (2, 40)}
+
+
+def _delay_bounded(d, T):
+    import itertools
+    yield [-1] * T
+    for k in range(1, d + 1):
+        for pos in itertools.combinations(range(T), k):
+            for devs in itertools.product((-2, -3), repeat=k):
+                sch = [-1] * T
+                for p_, v in zip(pos, devs):
+                    sch[p_] = v
+                yield sch
+
+
+def enumerate_cases(tier, shard, nshards):
+    d, T = DELAY_BOUND[tier]
+    i = 0
+    for n in (3, 5):
+        for mt in (1, 2):
+            for fail, delay in (([], 0), ([1], 0), ([], 1), ([1], 1)):
+                for sch in _delay_bounded(d, T):
+                    i += 1
+                    if i % nshards != shard:
+                        continue
+                    yield {"enum": True, "n": n, "par": 2, "max_tasks": mt, "fail": fail, "unpicklable": [], "tolerate": True, "use_run": False,
+                           "schedule": sch, "delays": [delay], "fail_kind": 0, "callback": None}
 
 
 @st.composite
